@@ -1892,6 +1892,15 @@ func (k *Kernel) handleReplayedHeader(
 		}
 	}
 
+	if !header.ValidatorSet.Equal(s.Voting.ValidatorSet) {
+		// The signatures below are checked against the header's validator set,
+		// and the block hash only covers that set's hashes,
+		// so the set itself must be the one we expect for this height.
+		return tmelink.ReplayedHeaderValidationError{
+			Err: errors.New("replayed header's validator set differs from the validator set expected at its height"),
+		}
+	}
+
 	if proof.Round < s.Voting.Round {
 		// There are some edge cases we haven't handled yet with going backwards.
 		// It is a valid case when we saw >2/3 total precommits
